@@ -38,6 +38,8 @@ func main() {
 		out = transMisc(os.Args[2:])
 	case "sites":
 		out = transSites(os.Args[2:])
+	case "cli":
+		out = transCli(os.Args[2:])
 	default:
 		fail("unknown mode %q", os.Args[1])
 	}
